@@ -116,9 +116,12 @@ def law_path_set(paths, probes):
         for s in sel_list:
             check(o.is_inside(s, p) == ref_inside(s, p),
                   "C47/is_inside-disagrees-with-component-prefix", [s, p])
-    # the selection does not depend on order or multiplicity of the input
+    # the selection does not depend on order, multiplicity or container type
     again = o.minimum_path_selection(sorted(pset, reverse=True))
     check(again == sel, "C47/mps-depends-on-input-order", [info, sorted(again)])
+    check(o.minimum_path_selection(set(pset)) == sel and
+          o.minimum_path_selection(tuple(paths) + tuple(paths)) == sel,
+          "C47/mps-depends-on-container-type", info)
 
 
 U_ABB = universe(["a", "ab", "b"], 2)          # 13 paths
@@ -394,6 +397,13 @@ def run_text(case, env):
     law_chunking(t, lines, chunks)
     law_chunking(t, lines, with_empty)
     law_chunking(t, lines, lines)
+    # any iterable of chunks: tuple, generator
+    check(o.chunks_to_lines(tuple(chunks)) == lines and
+          o.chunks_to_lines(c for c in with_empty) == lines,
+          "C47/chunks_to_lines-depends-on-iterable-type",
+          [b2s(t), [b2s(c) for c in chunks]])
+    check(o.split_lines(chunks) == lines,
+          "C47/split_lines-of-chunk-list-differs", [b2s(t)])
     check(list(o.chunks_to_lines_iter(iter(with_empty))) == lines,
           "C47/chunks_to_lines_iter-depends-on-chunking",
           [b2s(t), [b2s(c) for c in with_empty]])
@@ -421,6 +431,14 @@ def law_date(t, offmin):
                          [info, repr(e)])
     info["parsed"] = [repr(t2), o2]
     check(o2 == off, "C47/highres-date-offset-not-restored", info)
+    # other spellings of the same arguments: int timestamp, omitted offset
+    if t == math.floor(t):
+        check(o.format_highres_date(int(t), off) == s,
+              "C47/highres-date-int-timestamp-formats-differently", info)
+    if off == 0:
+        check(o.format_highres_date(t) == s and
+              o.format_highres_date(t, None) == s,
+              "C47/highres-date-default-offset-formats-differently", info)
     tol = 5e-10 + 2 * math.ulp(t)
     if abs(t2 - t) > tol:
         frac = t - math.floor(t)
